@@ -62,6 +62,6 @@ class Prop(object):
         return {
             "method": s.get("method"), "method_family": gen.method_family(s["method"]) if s.get("method") else None,
             "direction": "forward" if d > 0 else "backward", "dense": bool(s.get("dense")), "dtype": scn["problem"].get("dtype", "float64"),
-            "events": bool(scn.get("events")), "jac": s.get("jac", "none"), "has_faults": bool(scn.get("faults")),
+            "events": bool(scn.get("events")), "jac": s.get("jac", "none"), "has_faults": bool(scn.get("faults")), "family": scn["problem"].get("family"),
             "fault_seams": sorted(set(f["seam"] for f in scn.get("faults", []))),
         }
